@@ -459,12 +459,12 @@ func (res *Response) CalculateFinalStats() {
 		rowSize += hasColumns
 		res.result[rowNum] = make([]interface{}, rowSize)
 		if hasColumns > 0 {
-			parts := strings.Split(key, ListSepChar1)
+			parts := splitStatsKey(key)
 			for i := range parts {
-				res.result[rowNum][i] = &parts[i]
 				if i >= hasColumns {
 					break
 				}
+				res.result[rowNum][i] = &parts[i]
 			}
 		}
 		for colNum := range stats {
